@@ -87,6 +87,14 @@ fn execute_block<C: CellType, const LIMITED: bool>(
     Some(true)
 }
 
+#[cfg(hpbf_verif)]
+impl<C: CellType> IrInterpreter<C> {
+    /// Verification hook: the (optimized) program this interpreter executes.
+    pub fn verif_program(&self) -> &Program<C> {
+        &self.program
+    }
+}
+
 impl<C: CellType> Executor<'_, C> for IrInterpreter<C> {
     fn create(code: &str, opt: u32) -> Result<Self, Error> {
         let mut program = Program::<C>::parse(code)?;
